@@ -239,7 +239,7 @@ func (eval *Evaluator) CoeffsToSlots(ctIn *rlwe.Ciphertext, ctsMatrices Matrix, 
 
 		zV := ctIn.CopyNew()
 
-		if err = eval.dft(ctIn, ctsMatrices.Matrices, zV); err != nil {
+		if err = eval.dft(ctIn, ctsMatrices, zV); err != nil {
 			return fmt.Errorf("cannot CoeffsToSlots: %w", err)
 		}
 
@@ -291,7 +291,7 @@ func (eval *Evaluator) CoeffsToSlots(ctIn *rlwe.Ciphertext, ctsMatrices Matrix, 
 		zV = nil
 
 	} else {
-		if err = eval.dft(ctIn, ctsMatrices.Matrices, ctReal); err != nil {
+		if err = eval.dft(ctIn, ctsMatrices, ctReal); err != nil {
 			return fmt.Errorf("cannot CoeffsToSlots: %w", err)
 		}
 	}
@@ -329,11 +329,11 @@ func (eval *Evaluator) SlotsToCoeffs(ctReal, ctImag *rlwe.Ciphertext, stcMatrice
 			return fmt.Errorf("cannot SlotsToCoeffs: %w", err)
 		}
 
-		if err = eval.dft(opOut, stcMatrices.Matrices, opOut); err != nil {
+		if err = eval.dft(opOut, stcMatrices, opOut); err != nil {
 			return fmt.Errorf("cannot SlotsToCoeffs: %w", err)
 		}
 	} else {
-		if err = eval.dft(ctReal, stcMatrices.Matrices, opOut); err != nil {
+		if err = eval.dft(ctReal, stcMatrices, opOut); err != nil {
 			return fmt.Errorf("cannot SlotsToCoeffs: %w", err)
 		}
 	}
@@ -341,14 +341,26 @@ func (eval *Evaluator) SlotsToCoeffs(ctReal, ctImag *rlwe.Ciphertext, stcMatrice
 	return
 }
 
-// dft evaluates a series of [lintrans.LinearTransformation] sequentially on the ctIn and stores the result in opOut.
-func (eval *Evaluator) dft(ctIn *rlwe.Ciphertext, matrices []ltcommon.LinearTransformation, opOut *rlwe.Ciphertext) (err error) {
+// dft evaluates the factorized DFT sequentially on the ctIn and stores the result in opOut.
+// The matrices of one level of the factorization (Levels[i] of them) share one prime: their scales multiply to it
+// and the ciphertext is rescaled once, after the last of them.
+func (eval *Evaluator) dft(ctIn *rlwe.Ciphertext, m Matrix, opOut *rlwe.Ciphertext) (err error) {
 
 	inputLogSlots := ctIn.LogDimensions
 
-	// Sequentially multiplies w with the provided dft matrices.
-	if err = eval.LTEvaluator.EvaluateSequential(ctIn, matrices, opOut); err != nil {
-		return
+	in, idx := ctIn, 0
+	for _, n := range m.Levels {
+
+		for j := 0; j < n; j, idx = j+1, idx+1 {
+			if err = eval.LTEvaluator.EvaluateMany(in, m.Matrices[idx:idx+1], []*rlwe.Ciphertext{opOut}); err != nil {
+				return
+			}
+			in = opOut
+		}
+
+		if err = eval.Rescale(opOut, opOut); err != nil {
+			return
+		}
 	}
 
 	// Encoding matrices are a special case of `fractal` linear transform
